@@ -15,4 +15,6 @@ View == <<storage, pc, role, goal, lst, mem, open, unsaved, have, seen, plan, ne
 Budget1 == [p \in Proc |-> 1]
 Budget2 == [p \in Proc |-> 2]
 Budget3 == [p \in Proc |-> 3]
+BudgetP == [p \in Proc |-> IF p = "x" THEN 2 ELSE 2]
+BudgetQ == [p \in Proc |-> IF p = "x" THEN 2 ELSE 1]
 =============================================================================
